@@ -55,13 +55,19 @@ class Verifier:
         for n in ast.walk(st):
             if isinstance(n, (ast.Assign, ast.AugAssign, ast.AnnAssign, ast.For, ast.NamedExpr, ast.withitem)):
                 tg = n.targets if isinstance(n, ast.Assign) else [getattr(n, 'target', None) or getattr(n, 'optional_vars', None)]
+                def tnames(t):
+                    if isinstance(t, ast.Name): names.add(t.id)
+                    elif isinstance(t, (ast.Tuple, ast.List)):
+                        for e in t.elts: tnames(e)
+                    elif isinstance(t, ast.Starred): tnames(t.value)
+                    elif isinstance(t, ast.Subscript): tnames(t.value)     # x[k] = v updates the (by-value) collection in x
+                    # obj.attr = v is a heap write (assigned_fields), the name obj itself is not modified
                 for t in tg:
-                    if t is None: continue
-                    for m in ast.walk(t):
-                        if isinstance(m, ast.Name): names.add(m.id)
+                    if t is not None: tnames(t)
             elif isinstance(n, ast.Call) and isinstance(n.func, ast.Attribute) and n.func.attr in E.MUTATING:
                 b = n.func.value
-                while isinstance(b, (ast.Attribute, ast.Subscript)): b = b.value
+                while isinstance(b, ast.Subscript): b = b.value
+                # x.append(..) / x[k].append(..) mutate the local x; obj.field.append(..) mutates a heap field (see assigned_fields)
                 if isinstance(b, ast.Name): names.add(b.id)
             elif isinstance(n, ast.ExceptHandler) and n.name: names.add(n.name)
             elif isinstance(n, ast.Delete):
@@ -105,7 +111,16 @@ class Verifier:
         c = frame.get('contract')
         base = c.qual if c else frame['func'].name
         return base + '.<locals>.' + st.name
-    def subclass_test(self, ex, obj, c): raise Unsupported('isinstance on heap objects')
+    def subclass_test(self, ex, obj, c):
+        """isinstance(obj, C) for a heap object whose dynamic class is one of the classes of a declared hierarchy:
+        an uninterpreted class tag + the subclass relation read from the module's class definitions"""
+        rel = self.w.hierarchies.get(obj.ty.cls)
+        if rel is None: raise Unsupported('isinstance on %r (no class hierarchy declared)' % obj.ty)
+        names, subs = class_hierarchy(rel)
+        if c.name not in names: raise Unsupported('isinstance(_, %s): class not in %s' % (c.name, rel))
+        tag = z3.Function('clsid_' + obj.ty.cls, sort_of(obj.ty), z3.IntSort())(obj.t)
+        ex.assume(z3.And(tag >= 0, tag < len(names)))
+        return z3.Or(*[tag == names.index(d) for d in sorted(subs[c.name])])
     def str_lib(self, ex, s, name, args, kwargs): raise Unsupported('str.%s (no library lemma loaded)' % name)
     def str_join(self, ex, sep, seq): raise Unsupported('str.join over a symbolic sequence')
     def map_iter(self, ex, recv, name): raise Unsupported('dict.%s iteration (needs ordered map model)' % name)
@@ -310,6 +325,26 @@ def _names_used(c):
         txt = ' '.join(c.requires + c.ensures + [str(c.raises), str(c.loops), str(c.call_ghost)])
         _names_cache[c.key] = set(re.findall(r'[A-Za-z_]\w*', txt)) | set(c.hints.get('axioms', []))
     return _names_cache[c.key]
+
+_hier_cache = {}
+def class_hierarchy(rel):
+    """(class names in definition order, name -> set of all (transitive) subclasses incl. itself) for one module"""
+    if rel in _hier_cache: return _hier_cache[rel]
+    m = repo.module(rel); names = []; bases = {}
+    for st in ast.walk(m.tree):
+        if isinstance(st, ast.ClassDef):
+            names.append(st.name); bases[st.name] = [ast.unparse(b).split('.')[-1].split('[')[0] for b in st.bases]
+    subs = {n: {n} for n in names}
+    changed = True
+    while changed:
+        changed = False
+        for n in names:
+            for b in bases[n]:
+                if b in subs:
+                    new = subs[n] - subs[b]
+                    if new: subs[b] |= new; changed = True
+    _hier_cache[rel] = (names, subs)
+    return names, subs
 
 def _walk_own(fn):
     """walk a function body without descending into nested function/class definitions"""
